@@ -117,7 +117,7 @@ def run(ctx):
     r.check("R17.2", chars == set("\t\n\x0c\r "), "regex-class", REL,
             "the collapsing class is %s, not the five HTML white-space characters" % sorted(map(repr, chars)), detail={"class": sorted(map(repr, chars))})
     cs = repo.func(REL, "collapse_spaces")
-    r.check("R17.2", [norm(s) for s in cs.node.body if not isinstance(s, ast.Expr)] == ["return SPACES_REGEX.sub(' ', %s)" % cs.params()[0]],
+    r.idiom("R17.2", [norm(s) for s in cs.node.body if not isinstance(s, ast.Expr)] == ["return SPACES_REGEX.sub(' ', %s)" % cs.params()[0]],
             "replacement", cs.where, "collapse_spaces is not SPACES_REGEX.sub(' ', text)")
     # R17.3
     raw = set(ce.const("constants.py", "rcdataElements"))
